@@ -696,6 +696,9 @@ func printResult(res *interp.Result) {
 	}
 	printMap("UNSUPPORTED", res.Unsupported)
 	printMap("BUDGET", res.Budget)
+	if os.Getenv("SYMGO_KNOWNAUDIT") != "" {
+		printMap("KNOWN-PREDICATE ON WHILE THE ASSERTION HELD", res.KnownHeld)
+	}
 	printMap("HANG-CANDIDATES", res.Hangs)
 	printMap("INCONCLUSIVE", res.Inconclusive)
 	for _, v := range res.Violations {
